@@ -99,7 +99,7 @@ def write_cfg(path, *, init="Init", next="Next", spec=None, constants=None, inva
 
 def run(module, cfg, *, workers=16, timeout=900, coverage=True, simulate=None, depth=None,
         seed=None, env=None, extra=(), heap="8g", keep_stdout=True, on_record=None,
-        dfs=False):
+        dfs=False, lib=None):
     """Run TLC on `module` (path to .tla) with config `cfg` (path).
 
     simulate: None, or a string like 'num=1000' (adds -simulate num=1000).
@@ -111,9 +111,11 @@ def run(module, cfg, *, workers=16, timeout=900, coverage=True, simulate=None, d
     cfg = os.path.abspath(cfg)
     moddir = os.path.dirname(module)
     meta = tempfile.mkdtemp(prefix="vf_tlc_")
-    jopts = ["-XX:+UseParallelGC", "-Xmx" + heap]
+    jopts = ["-XX:+UseParallelGC", "-Xmx" + heap, "-Xss64m"]
     if dfs:
         jopts.append("-Dtlc2.tool.queue.IStateQueue=StateDeque")
+    if lib:
+        jopts.append("-DTLA-Library=" + os.path.abspath(lib))
     cmd = ["java"] + jopts + ["-cp", JAR + ":" + DEPS, "tlc2.TLC", "-workers", str(workers),
                                 "-metadir", meta, "-noGenerateSpecTE"]
     if coverage and not simulate:
